@@ -412,6 +412,7 @@ fn classify(msg: &str) -> &'static str {
     ("wallet contains no cardinal utxos", "no-cardinals"),
     ("not enough cardinal utxos", "not-enough-cardinals"),
     ("enough cardinal UTXOs", "not-enough-cardinals"),
+    ("offset higher than maximum", "out-of-range"),
     ("not in wallet", "not-in-wallet"),
     ("insufficient funds", "insufficient-funds"),
     ("panic:", "panic"),
